@@ -661,6 +661,12 @@ theorem critical_sections_atomic :
       [("Store.registerModule", 1, 1, true, true), ("Store.deleteModule", 1, 1, true, true),
        ("Store.module", 1, 1, true, true), ("Store.CloseWithExitCode", 1, 1, true, true)] := by decide
 
+/-- **Regenerated obligation**: the first thing `registerModule` does inside its critical section is to refuse
+when the store is closed (`nameToModule == nil`) - for every module, named or anonymous.  This is the model's
+`iReg` step on a closed store (a fresh, closed instance and the "closed" error); a seeded change that moved the
+check into the named-module branch let anonymous modules be registered after `Runtime.Close` had returned. -/
+theorem register_refuses_on_closed_store : Wz.Gen.C10Sections.registerRefusesWhenClosed = true := by decide
+
 /-! ## Part D: close effects under all interleavings -/
 
 /-- **Close effects, all interleavings** (partial: the at-most-once half and the FS half of exactly-once).
